@@ -86,7 +86,9 @@ RULE = (
     "(inconsistent argument); del; gc; cache_clear (the compiled method is dropped while its "
     "results live on)}, under a seeded heap (garbage, red zones, realloc/zero "
     "policy), a per-worker initial capacity, and gc.collect() injected at seeded trace lines "
-    "inside operations; every history ends with del of all names + gc. distinct_nontrivial "
+    "inside operations; every evaluate uses one of two dimension sets; 10% of the quick histories "
+    "(30% when serving C02, 35% thorough) are dealt out to two simulated threads over a palette of "
+    "1-3 kernels; every history ends with del of all names + gc. distinct_nontrivial "
     "counts distinct operation-kind sequences that contain at least one kernel output that is "
     "later deleted."
 )
